@@ -73,13 +73,31 @@ def work(v):
 
 
 # ----------------------------------------------------------------------------- real side
+def decode_key(ks):
+    """replayable description of a key -> the hashable handed to parallelise"""
+    if ks[0] == "t":
+        return tuple(decode_key(x) for x in ks[1])
+    return ks[1]
+
+
+def real_keys(case) -> dict:
+    """label (the model's key) -> real key; labels without an entry are their own key"""
+    rk = case.get("realkeys", {})
+    return {k: (decode_key(rk[k]) if k in rk else k) for k, _, _ in case["keys"]}
+
+
+def _fname(key) -> str:
+    from mxlpy.parallel import Cache
+    return Cache().name_fn(key)  # whatever naming the shipped default uses
+
+
 def _listing(d: Path):
     return {p.name: (p.stat().st_size, p.stat().st_mtime_ns) for p in d.iterdir()}
 
 
-def _final_state(d: Path, key: str, vid: int, spec):
-    p = d / f"{key}.p"
-    if not p.exists():
+def _final_state(d: Path, key, vid: int, spec):
+    p = d / _fname(key)
+    if not p.is_file():
         return "absent"
     got = p.read_bytes()
     want = pickle.dumps(build(vid, spec))
@@ -90,11 +108,11 @@ def _final_state(d: Path, key: str, vid: int, spec):
     return ["other", len(got)]
 
 
-def _obs_fs(d: Path, keys, before):
-    finals = {f"{k}.p" for k, _, _ in keys}
+def _obs_fs(d: Path, keys, before, rk):
+    finals = {_fname(rk[k]) for k, _, _ in keys}
     now = _listing(d)
     strays = sorted(sz for name, (sz, mt) in now.items() if name not in finals and before.get(name) != (sz, mt))
-    return {"final": [[k, _final_state(d, k, vid, spec)] for k, vid, spec in keys], "strays": strays}
+    return {"final": [[k, _final_state(d, rk[k], vid, spec)] for k, vid, spec in keys], "strays": strays}
 
 
 def _ident(keys, value):
@@ -106,9 +124,9 @@ def _ident(keys, value):
     return "other"
 
 
-def _parallelise(keys, injs, d: Path, log: Path, workers: int):
+def _parallelise(keys, injs, d: Path, log: Path, workers: int, rk):
     from mxlpy.parallel import Cache, parallelise
-    inputs = [(k, (vid, spec, injs.get(k), str(log))) for k, vid, spec in keys]
+    inputs = [(rk[k], (vid, spec, injs.get(k), str(log))) for k, vid, spec in keys]
     return parallelise(work, inputs, cache=Cache(tmp_dir=d), parallel=workers > 0,
                        max_workers=workers or None, disable_tqdm=True)
 
@@ -122,6 +140,8 @@ def real_case(case: dict) -> list:
     log = d / "calls.log"
     keys = case["keys"]
     vid2key = {vid: k for k, vid, _ in keys}
+    rk = real_keys(case)
+    back = {v: k for k, v in rk.items()}
     out = []
     try:
         for step in case["script"]:
@@ -135,22 +155,24 @@ def real_case(case: dict) -> list:
                 if pid == 0:
                     code = 0
                     try:
-                        _parallelise(keys, injs, cdir, log, workers)
+                        _parallelise(keys, injs, cdir, log, workers, rk)
                     except BaseException:  # noqa: BLE001  ProcessExpired / load errors end the run
                         code = 3
                     os._exit(code)
                 _, st = os.waitpid(pid, 0)
                 how = "killed" if os.WIFSIGNALED(st) else ("raised" if os.WEXITSTATUS(st) else "completed")
-                out.append({"fs": _obs_fs(cdir, keys, before), "ended": how})
+                out.append({"fs": _obs_fs(cdir, keys, before, rk), "ended": how})
             elif step[0] == "run":
-                have = {k for k, vid, spec in keys if _final_state(cdir, k, vid, spec) == "full"}
+                have = {k for k, vid, spec in keys if _final_state(cdir, rk[k], vid, spec) == "full"}
                 try:
-                    res = _parallelise(keys, {}, cdir, log, step[1])
-                    o = ["ok", [[k, _ident(keys, v)] for k, v in res]]
+                    res = _parallelise(keys, {}, cdir, log, step[1], rk)
+                    o = ["ok", [[back.get(k, repr(k)), _ident(keys, v)] for k, v in res]]
                 except (pickle.UnpicklingError, EOFError):
                     o = "error"
+                except OSError as e:  # the cache could not even be written
+                    o = f"raised:{type(e).__name__}"
                 calls = sorted(vid2key[int(x)] for x in log.read_text().split())
-                out.append({"out": o, "calls": calls, "fs": _obs_fs(cdir, keys, before),
+                out.append({"out": o, "calls": calls, "fs": _obs_fs(cdir, keys, before, rk),
                             "uncached_before": sorted(k for k, _, _ in keys if k not in have)})
             else:
                 raise ValueError(step)
@@ -245,6 +267,41 @@ def mk_keys(specs):
     return [[f"k{i}", 10 + i, list(s)] for i, s in enumerate(specs)]
 
 
+# keys as users produce them: scan index labels, replicate names, numbers, tuples from cartesian products.  Pairs that
+# differ only in punctuation / whitespace / case are deliberate: every key owns its result.
+KEY_POOL = [["s", x] for x in ["rep 1", "rep_1", "rep-1", "rep.1", "k_in*2", "k_in+2", "k_in 2", "a:b", "a;b", "f(1, 2)",
+                               "f(1,2)", "A", "a", "0.1", "0,1", "α", "a b", "a  b", "-1", "_1", "x\ty", "50%", "50$",
+                               "[1]", "{1}", "k1=2", "k1 2", "é", "e", "", " "]] \
+    + [["n", x] for x in [0, 1, 2, 7, -1, 0.5, 1.5, 0.001, 1e6]] \
+    + [["t", [["n", 1], ["n", 2]]], ["t", [["n", 1], ["n", 3]]], ["t", [["n", 2], ["s", "a"]]], ["t", [["n", 0.5], ["n", 1]]]]
+
+
+def unusual_keys(rng, keys):
+    """-> realkeys for the labels of `keys`: drawn from KEY_POOL with pairwise different str() (keys of different
+    type whose str() coincide are the listed finding F-C19-2 and have their own fixed cases)"""
+    chosen, seen = [], set()
+    pool = KEY_POOL[:]
+    rng.shuffle(pool)
+    # make a near-collision likely: start from a random neighbour pair of the pool's string part
+    i = rng.randrange(0, 28)
+    pool = [KEY_POOL[i], KEY_POOL[i + 1]] + pool
+    for ks in pool:
+        st = str(decode_key(ks))
+        if st not in seen:
+            seen.add(st)
+            chosen.append(ks)
+        if len(chosen) == len(keys):
+            break
+    rng.shuffle(chosen)
+    return {k: ks for (k, _, _), ks in zip(keys, chosen)}
+
+
+def outside_model(case) -> bool:
+    """keys for which `name_fn` is not an injective plain file name: the model's paths `final k` do not describe them"""
+    ks = [str(v) for v in real_keys(case).values()]
+    return len(set(ks)) != len(ks) or any("/" in x or "\0" in x or len(x) > 200 for x in ks)
+
+
 def seq_case(cid, specs, victim_idx, c, reruns=(0, 0)):
     keys = mk_keys(specs)
     k, vid, spec = keys[victim_idx]
@@ -312,12 +369,26 @@ def gen_cases(ctx):
                 script.append(["poolcrash", injs, rng.choice([2, 2, 16]), cs])
         script.append(["run", rng.choice([0, 2, 16])])
         script.append(["run", rng.choice([0, 0, 2])])
-        cases.append({"id": cid, "keys": keys, "script": script})
+        case = {"id": cid, "keys": keys, "script": script}
+        if rng.random() < 0.6:
+            case["realkeys"] = unusual_keys(rng, keys)
+        cases.append(case)
         cid += 1
     # no-crash transparency: plain run, rerun, with and without pool
     for w in (0, 2, 16):
         cases.append({"id": cid, "keys": mk_keys(specs_all[:5]), "script": [["run", w], ["run", 0], ["run", w]]})
         cid += 1
+    # no-crash transparency over unusual key sets (each neighbouring pair of the pool at least once in the thorough tier)
+    for j in range(ctx.n(14, 60)):
+        keys = mk_keys([rng.choice(specs_all[:4]) for _ in range(rng.randint(2, 5))])
+        w = rng.choice([0, 0, 2])
+        cases.append({"id": cid, "keys": keys, "realkeys": unusual_keys(rng, keys), "script": [["run", w], ["run", 0]]})
+        cid += 1
+    # F-C19-2: keys the default file naming cannot hold apart / cannot write
+    cases.append({"id": cid, "keys": mk_keys([("int", 0), ("str", 8)]), "realkeys": {"k0": ["s", "k_in/2"]},
+                  "script": [["run", 0]]})
+    cases.append({"id": cid + 1, "keys": mk_keys([("int", 0), ("str", 8)]), "realkeys": {"k0": ["n", 1], "k1": ["s", "1"]},
+                  "script": [["run", 0], ["run", 0]]})
     return cases
 
 
@@ -336,6 +407,10 @@ def judge_case(ctx, case, R, M):
         r = R[i]
         m = None if M is None else M[i]
         sub = {"id": case["id"], "keys": keys, "script": case["script"][: i + 1]}
+        if "realkeys" in case:
+            sub["realkeys"] = case["realkeys"]
+        if outside_model(case):
+            m = None
         if step[0] != "run":
             # interrupted run: nothing is promised about the files; this validates the model's crash states
             if m is not None and r["fs"] != m["fs"]:
@@ -347,6 +422,9 @@ def judge_case(ctx, case, R, M):
         Mv = None if m is None else {"out": m["out"], "calls": m["calls"]}
         if Mv is not None and step[1] > 0 and Mv["out"] == "error":
             Mv["calls"] = Rv["calls"]  # after a load error the pool still finishes other keys; only `out` is modelled
+        if outside_model(case):
+            ctx.judge(sub, Rv, S, None, finding="F-C19-2", what="complete run over keys the default name_fn cannot hold apart")
+            continue
         ctx.judge(sub, Rv, S, Mv, finding="F-C19-1" if broken else None,
                   what=f"complete run (step {i}, workers={step[1]}) after {[s[0] for s in case['script'][:i]]}")
         if m is not None and Rv["out"] != "error" and r["fs"] != m["fs"]:
@@ -412,30 +490,32 @@ def _scan_stratum(ctx):
     shutil.rmtree(d, ignore_errors=True)
     d.mkdir(parents=True)
     try:
-        to_scan = pd.DataFrame({"kin": [1.0, 2.0, 3.0, 4.0]})
         tp = np.linspace(0, 2, 5)
-        for name, call, frames in [
-            ("steady_state", lambda **k: scan.steady_state(lin_model(), to_scan=to_scan, **k),
-             lambda r: [r.variables, r.fluxes]),
-            ("time_course", lambda **k: scan.time_course(lin_model(), to_scan=to_scan, time_points=tp, **k),
-             lambda r: [r.variables, r.fluxes]),
-        ]:
-            for par in (False, True):
-                cdir = d / f"{name}-{par}"
-                log = d / f"{name}-{par}.log"
-                inner = scan._steady_state_worker if name == "steady_state" else scan._time_course_worker
-                plain = frames(call(parallel=par))
-                first = frames(call(parallel=par, cache=Cache(tmp_dir=cdir)))
-                log.write_text("")
-                again = frames(call(parallel=False, cache=Cache(tmp_dir=cdir), worker=CountingWorker(inner, str(log))))
-                case = {"scan": name, "parallel": par}
-                ctx.count(case, f"scan.{name}:parallel={par}")
-                can = lambda fs: [[[repr(x) for x in row] for row in f.to_numpy().tolist()] + [list(map(str, f.columns))] for f in fs]  # noqa: E731
-                R = {"cached": can(first), "rerun": can(again), "rerun_calls": len(log.read_text().split()),
-                     "files": sorted(p.name for p in cdir.iterdir() if p.name.endswith(".p"))}
-                S = {"cached": can(plain), "rerun": can(plain), "rerun_calls": 0,
-                     "files": sorted(f"{i}.p" for i in to_scan.index)}
-                ctx.judge(case, R, S, None, what=f"scan.{name} with cache vs without, rerun from disk")
+        # index labels as users write them; rows that differ only in punctuation are still different rows
+        label_sets = {"range": None, "labels": ["k_in*2", "k_in+2", "rep 1", "rep_1"]}
+        for lname, labels in label_sets.items():
+            to_scan = pd.DataFrame({"kin": [1.0, 2.0, 3.0, 4.0]}, index=labels)
+            for name, call, frames in [
+                ("steady_state", lambda **k: scan.steady_state(lin_model(), to_scan=to_scan, **k),
+                 lambda r: [r.variables, r.fluxes]),
+                ("time_course", lambda **k: scan.time_course(lin_model(), to_scan=to_scan, time_points=tp, **k),
+                 lambda r: [r.variables, r.fluxes]),
+            ]:
+                for par in ((False, True) if labels is None else (False,)):
+                    cdir = d / f"{name}-{par}-{lname}"
+                    log = d / f"{name}-{par}-{lname}.log"
+                    inner = scan._steady_state_worker if name == "steady_state" else scan._time_course_worker
+                    plain = frames(call(parallel=par))
+                    first = frames(call(parallel=par, cache=Cache(tmp_dir=cdir)))
+                    log.write_text("")
+                    again = frames(call(parallel=False, cache=Cache(tmp_dir=cdir), worker=CountingWorker(inner, str(log))))
+                    case = {"scan": name, "parallel": par, "labels": lname}
+                    ctx.count(case, f"scan.{name}:parallel={par}:{lname}")
+                    can = lambda fs: [[[repr(x) for x in row] for row in f.to_numpy().tolist()] + [list(map(str, f.columns))] for f in fs]  # noqa: E731
+                    R = {"cached": can(first), "rerun": can(again), "rerun_calls": len(log.read_text().split()),
+                         "files": len([p for p in cdir.iterdir() if p.name.endswith(".p")])}
+                    S = {"cached": can(plain), "rerun": can(plain), "rerun_calls": 0, "files": len(to_scan.index)}
+                    ctx.judge(case, R, S, None, what=f"scan.{name} with cache vs without, rerun from disk")
     finally:
         shutil.rmtree(d, ignore_errors=True)
 
